@@ -284,6 +284,10 @@ func (x *Exec) atLoopHead(st *State, f *Frame, li *LoopInfo) bool {
 				g := ctx.boolExpr(inv.E, true)
 				x.obligeSrc(st, "inv-pres", fmt.Sprintf("%s/loop%d/%s", fname, li.ordinal, inv.Name), g, pos, inv.Src)
 			}
+			for _, sc := range spec.Steps {
+				g := ctx.boolExpr(sc.E, true)
+				x.obligeSrc(st, "loop-step", fmt.Sprintf("%s/loop%d/%s", fname, li.ordinal, sc.Name), g, pos, sc.Src)
+			}
 			if len(spec.Decreases) > 0 {
 				var now []*Term
 				for _, d := range spec.Decreases {
@@ -327,7 +331,7 @@ func (x *Exec) atLoopHead(st *State, f *Frame, li *LoopInfo) bool {
 			}
 		}
 	}
-	entry := &LoopEntry{}
+	entry := &LoopEntry{trace: st.trace, ordinal: li.ordinal}
 	if spec != nil {
 		ctx2 := x.newSpecCtx(st, f, f.fn)
 		ctx2.loop = li
